@@ -466,7 +466,14 @@ class Env:
         ml = c_size_t(3)   # tiny message buffer
         mo2 = exact(b"\x00" * 3)
         self.ret01(st, "rangeproof_rewind-small-msgbuf", L.rangeproof_rewind(c, bo, byref(v), mo2, byref(ml), K(7), byref(mn), byref(mx), cm, e, len(d), extra if extra else None, len(extra), self.gen))
-        st.calls += 4
+        # optional outputs absent, creator's nonce and a foreign one (the ordinary "not my output" scan of a wallet)
+        for nonce in (K(7), K(8)):
+            self.ret01(st, "rangeproof_rewind-no-outputs", L.rangeproof_rewind(c, None, None, None, None, nonce, byref(mn), byref(mx), cm, e, len(d), extra if extra else None, len(extra), self.gen))
+            self.ret01(st, "rangeproof_rewind-value-only", L.rangeproof_rewind(c, None, byref(v), None, None, nonce, byref(mn), byref(mx), cm, e, len(d), extra if extra else None, len(extra), self.gen))
+            self.ret01(st, "rangeproof_rewind-blind-only", L.rangeproof_rewind(c, bo, None, None, None, nonce, byref(mn), byref(mx), cm, e, len(d), extra if extra else None, len(extra), self.gen))
+        ml = c_size_t(4096)
+        self.ret01(st, "rangeproof_rewind-foreign-nonce", L.rangeproof_rewind(c, bo, byref(v), mo, byref(ml), K(8), byref(mn), byref(mx), cm, e, len(d), extra if extra else None, len(extra), self.gen))
+        st.calls += 11
         return r
 
     def t_surjection(self, d, st, seed_idx=0):
